@@ -46,7 +46,8 @@ The chain, link by link (each link is a theorem; the composition is the property
 6. At the level of `Scorer::score`, both modes: `search_ranks`, `search_in_window_all` (`InWindow`),
    `search_in_window_wide`, `search_chimera_rounds`, `search_chimera_best` (per-round `no_better_left_out` on the residual
    spectrum `residual (removeOn …) peaks (out.take i)`), `scored_exact` / `search_scored`, `label_spec`,
-   `removeMatched_spec`, `removeMatched_tic`.
+   `removeMatched_spec`, `removeMatched_only_matched` (only peaks matched under the CONFIGURED fragment-charge limit
+   are removed), `removeMatched_tic`.
 
 Not proved: the full scorer (`score_candidate` is C04's subject; the ranking theorems hold for every scorer), IEEE
 rounding, and lawfulness of `f32 ==` (NaN-free data) in `removeMatched_spec`.
@@ -1645,5 +1646,84 @@ example : Sage.C03.SortedArr (exPeaks.toArray.map (·.mass)) ∧ (∀ p ∈ exPe
   refine ⟨?_, fun p _ => Nat.zero_le _, by decide⟩
   rw [show exPeaks.toArray.map (·.mass) = #[20, 30] from by simp [exPeaks]]
   exact Sage.C03.sortedAdj_sound _ (by decide)
+
+/-- the (fragment, charge) pairs of the double loop: charges are exactly `1 ≤ charge < mfc`, ions come from the series -/
+theorem mem_fragCharges {α : Type} (series : List (Sage.C09.Kind × List α)) (mfc : Nat) (f : Sage.C04.FZ α)
+    (h : f ∈ Sage.C04.fragCharges series mfc) :
+    1 ≤ f.charge ∧ f.charge < mfc ∧ ∃ ks ∈ series, f.kind = ks.1 ∧ ks.2[f.idx]? = some f.ion := by
+  unfold Sage.C04.fragCharges at h
+  obtain ⟨ks, hks, h⟩ := List.mem_flatMap.mp h
+  obtain ⟨mj, hmj, h⟩ := List.mem_flatMap.mp h
+  obtain ⟨z, hz, rfl⟩ := List.mem_map.mp h
+  have hz' := List.mem_range'_1.mp hz
+  refine ⟨hz'.1, (by show z < mfc; omega), ks, hks, rfl, ?_⟩
+  obtain ⟨i, hi⟩ := List.mem_iff_getElem?.mp hmj
+  rw [List.getElem?_zipIdx] at hi
+  cases hx : ks.2[i]? with
+  | none => rw [hx] at hi; simp at hi
+  | some x =>
+    rw [hx] at hi
+    simp only [Option.map_some, Option.some.injEq] at hi
+    subst hi
+    simpa using hx
+
+/-- `max_fragment_charge(Some(c), z) ≤ c + 1` whenever `c ≥ 1`, and `≤ max z 2` always -/
+theorem maxFragmentCharge_le (cfg : Option Nat) (z : Nat) :
+    Sage.C04.maxFragmentCharge cfg z ≤ max z 2 ∧ (∀ c, cfg = some c → 1 ≤ c → Sage.C04.maxFragmentCharge cfg z ≤ c + 1) := by
+  unfold Sage.C04.maxFragmentCharge
+  constructor
+  · omega
+  · intro c hc h1
+    subst hc
+    simp only [Option.map_some, Option.getD_some]
+    omega
+
+section only
+variable {α β : Type} [LinearOrder α] [BEq α] [LawfulBEq α]
+
+/-- **C02.removeMatched_only_matched** — `remove_matched_peaks` honours the CONFIGURED fragment-charge limit: every peak
+    it removes is the most intense peak of the fragment window of a theoretical fragment of the PSM's peptide (a
+    configured kind) at a fragment charge `1 ≤ charge < max_fragment_charge(self.max_fragment_charge, psm.charge)` —
+    the very range `score_candidate` and the preliminary count use — hence `charge ≤ c` when `max_fragment_charge =
+    Some(c)` (`c ≥ 1`), and always `charge < max(psm.charge, 2)`. A peak sitting only on a higher-charge position of the
+    previous PSM (never matched) is NOT removed. (Seeded change C02-M replaced the bound by `psm.charge.max(2)`.) -/
+theorem removeMatched_only_matched (E : Env α β) (ftol : Tol α) (mfcCfg : Option Nat) (info : PepInfo α)
+    (peaks : Array (Peak α)) (pep z : Nat)
+    (hs : Sage.C03.SortedArr (peaks.map (·.mass))) (hnn : ∀ p ∈ peaks.toList, E.ofNat 0 ≤ p.intensity)
+    (p : Peak α) (hp : p ∈ peaks.toList) (hgone : p ∉ (removeMatched E ftol mfcCfg info peaks pep z).toList) :
+    ∃ f : Sage.C04.FZ α,
+      (∃ ks ∈ info.series pep, f.kind = ks.1 ∧ ks.2[f.idx]? = some f.ion) ∧
+      1 ≤ f.charge ∧ f.charge < Sage.C04.maxFragmentCharge mfcCfg z ∧ f.charge < max z 2 ∧
+      (∀ c, mfcCfg = some c → 1 ≤ c → f.charge ≤ c) ∧
+      E.add (Sage.C04.tolBounds E ftol (Sage.C04.mzOf E f)).1 (E.ofNat 0) ≤ p.mass ∧
+      p.mass ≤ E.add (Sage.C04.tolBounds E ftol (Sage.C04.mzOf E f)).2 (E.ofNat 0) ∧
+      ∀ q' ∈ peaks.toList, E.add (Sage.C04.tolBounds E ftol (Sage.C04.mzOf E f)).1 (E.ofNat 0) ≤ q'.mass →
+        q'.mass ≤ E.add (Sage.C04.tolBounds E ftol (Sage.C04.mzOf E f)).2 (E.ofNat 0) → q'.intensity ≤ p.intensity := by
+  obtain ⟨_, hmem, _, hsel⟩ := removeMatched_spec E ftol mfcCfg info peaks pep z hs hnn
+  have hnot := fun h => hgone ((hmem p).mpr ⟨hp, h⟩)
+  by_contra hcon
+  apply hnot
+  intro f hf q hq heq
+  apply hcon
+  obtain ⟨h1, h2, ks, hks, hk, hion⟩ := mem_fragCharges _ _ f hf
+  obtain ⟨_, hlo, hhi, hmax, _⟩ := hsel f hf q hq
+  have hle := maxFragmentCharge_le mfcCfg z
+  refine ⟨f, ⟨ks, hks, hk, hion⟩, h1, h2, by omega, ?_, by rw [← heq.1]; exact hlo, by rw [← heq.1]; exact hhi, ?_⟩
+  · intro c hc hc1
+    have := hle.2 c hc hc1
+    omega
+  · intro q' hq' a b
+    rw [← heq.2]; exact hmax q' hq' a b
+
+end only
+
+/-- the configured limit is strictly tighter than the precursor charge: with `max_fragment_charge = Some(1)` and a 3+
+    precursor only fragment charge 1 is used (`1..2`), whereas `psm.charge.max(2) = 3` would also strip charge-2 positions;
+    the (fragment, charge) pairs of the toy peptide 0 under that limit are its two b ions at charge 1 only -/
+example : Sage.C04.maxFragmentCharge (some 1) 3 = 2 ∧ max 3 2 = 3 ∧
+    ((Sage.C04.fragCharges (exInfo.series 0) (Sage.C04.maxFragmentCharge (some 1) 3)).map fun f => (f.ion, f.charge)) =
+      [(20, 1), (30, 1)] ∧
+    ((Sage.C04.fragCharges (exInfo.series 0) (max 3 2)).map fun f => (f.ion, f.charge)) =
+      [(20, 1), (20, 2), (30, 1), (30, 2)] := by decide
 
 end Sage.C02
